@@ -33,40 +33,8 @@ static inline double bits_d(unsigned long long u) { double f; memcpy(&f, &u, 8);
 #define VR_ENSURES(label, c) do { bool ok__ = (c); printf("REPLAY ensures %%s : %%s\n", label, ok__ ? "holds" : "FAILS"); if (!ok__ && !strcmp(label, g_target_label)) g_fail = 1; } while (0)
 #define VR_REQUIRES(c) do { if (!(c)) { printf("REPLAY requires false: %%s\n", #c); g_req_fail = 1; } } while (0)
 int __verif_exc = 0;
-#define FEQ(x, y) ({ __typeof__(x) x__ = (x); __typeof__(y) y__ = (y); (sizeof(x__) == sizeof(y__) && memcmp(&x__, &y__, sizeof(x__)) == 0) || (x__ != x__ && y__ != y__); })
-#define NOOVF_PLUS(a, b) ({ __typeof__((a) + (b)) r__; !__builtin_add_overflow(a, b, &r__); })
-#define NOOVF_MINUS(a, b) ({ __typeof__((a) - (b)) r__; !__builtin_sub_overflow(a, b, &r__); })
-#define NOOVF_MULT(a, b) ({ __typeof__((a) * (b)) r__; !__builtin_mul_overflow(a, b, &r__); })
-#define verif_add_i32(a, b) ((int)((int)(a) + (int)(b)))
-#define verif_add_u32(a, b) ((unsigned int)((unsigned int)(a) + (unsigned int)(b)))
-#define verif_add_i64(a, b) ((long)((long)(a) + (long)(b)))
-#define verif_add_u64(a, b) ((unsigned long)((unsigned long)(a) + (unsigned long)(b)))
-#define verif_add_f32(a, b) ((float)((float)(a) + (float)(b)))
-#define verif_add_f64(a, b) ((double)((double)(a) + (double)(b)))
-#define verif_sub_i32(a, b) ((int)((int)(a) - (int)(b)))
-#define verif_sub_u32(a, b) ((unsigned int)((unsigned int)(a) - (unsigned int)(b)))
-#define verif_sub_i64(a, b) ((long)((long)(a) - (long)(b)))
-#define verif_sub_u64(a, b) ((unsigned long)((unsigned long)(a) - (unsigned long)(b)))
-#define verif_sub_f32(a, b) ((float)((float)(a) - (float)(b)))
-#define verif_sub_f64(a, b) ((double)((double)(a) - (double)(b)))
-#define verif_mul_i32(a, b) ((int)((int)(a) * (int)(b)))
-#define verif_mul_u32(a, b) ((unsigned int)((unsigned int)(a) * (unsigned int)(b)))
-#define verif_mul_i64(a, b) ((long)((long)(a) * (long)(b)))
-#define verif_mul_u64(a, b) ((unsigned long)((unsigned long)(a) * (unsigned long)(b)))
-#define verif_mul_f32(a, b) ((float)((float)(a) * (float)(b)))
-#define verif_mul_f64(a, b) ((double)((double)(a) * (double)(b)))
-#define verif_div_i32(a, b) ((int)((int)(a) / (int)(b)))
-#define verif_div_u32(a, b) ((unsigned int)((unsigned int)(a) / (unsigned int)(b)))
-#define verif_div_i64(a, b) ((long)((long)(a) / (long)(b)))
-#define verif_div_u64(a, b) ((unsigned long)((unsigned long)(a) / (unsigned long)(b)))
-#define verif_div_f32(a, b) ((float)((float)(a) / (float)(b)))
-#define verif_div_f64(a, b) ((double)((double)(a) / (double)(b)))
-#define verif_mod_i32(a, b) ((int)((int)(a) %% (int)(b)))
-#define verif_mod_u32(a, b) ((unsigned int)((unsigned int)(a) %% (unsigned int)(b)))
-#define verif_mod_i64(a, b) ((long)((long)(a) %% (long)(b)))
-#define verif_mod_u64(a, b) ((unsigned long)((unsigned long)(a) %% (unsigned long)(b)))
-#define IMP(a, b) (!(a) || (b))
-#define IFF(a, b) (((a) != 0) == ((b) != 0))
+#define VERIF_REPLAY
+#include "%(prelude)s"
 """
 
 
@@ -189,12 +157,12 @@ def adapter(U, cname, checked_spec=None):
 def build_replay(U, job, ob, outdir, prop_id):
     """writes replay source + json; returns (path_json, confirmed: True/False/None, output)"""
     tr = U.tr
-    target = job["target"]
+    target = job.get("fname") or job["target"]
     spec = job["spec"]
     label = ob.get("label") or ob["id"]
     cex = ob.get("cex", {})
     os.makedirs(outdir, exist_ok=True)
-    base = os.path.join(outdir, "%s__%s__%s" % (prop_id, target, re.sub(r"\W+", "_", label)))
+    base = os.path.join(outdir, "%s__%s__%s" % (prop_id, re.sub(r"\W+", "_", job["target"]), re.sub(r"\W+", "_", label)))
     info = dict(property=prop_id, function=target, obligation=label, obligation_id=ob["id"], description=ob.get("desc"),
                 inputs={k: v.get("data") for k, v in cex.items()}, inputs_binary={k: v.get("binary") for k, v in cex.items()},
                 unit=U.name, verifier="cbmc 6.11 (goto-instrument --dfcc)", kind=ob.get("kind"))
@@ -202,7 +170,7 @@ def build_replay(U, job, ob, outdir, prop_id):
     try:
         if ob.get("kind") not in ("ensures", "lemma"):
             raise ExtractionBreak("obligation kind '%s' is replayed with sanitizers only" % ob.get("kind"))
-        src = PRE % dict(unit_cpp=U.cpp, label=label)
+        src = PRE % dict(unit_cpp=U.cpp, label=label, prelude=os.path.join(VERIF, 'include', 'verif_prelude.h'))
         # typedefs for record names
         for canon, cn in tr.rec_names.items():
             if tr.rec_defs.get(cn) is None and cn not in tr.rec_info:
@@ -275,7 +243,7 @@ def build_math_replay(U, job, ob, outdir, prop_id):
         f = tr.funcs[target]
         fs = FnSpec(target, arrays=ms.arrays, noalias=True)
         htxt, inputs = U.auto_harness(fs, f)
-        src = PRE % dict(unit_cpp=U.cpp, label=label)
+        src = PRE % dict(unit_cpp=U.cpp, label=label, prelude=os.path.join(VERIF, 'include', 'verif_prelude.h'))
         for canon, cn in tr.rec_names.items():
             if tr.rec_defs.get(cn) is None and cn not in tr.rec_info:
                 continue
